@@ -4,22 +4,34 @@ import Lemmas.QuadTreeFuel
 import Lemmas.QuadTreeFuelTree
 import Lemmas.QuadTreeFuelRat
 import Lemmas.QuadTreeHist
+import Lemmas.QuadTreeWrap
+import Lemmas.QuadTreeFuelLogTree
+import Lemmas.QuadTreeWrapFuel
+import Lemmas.QuadTreeOrder
+import Lemmas.QuadTreeFuelRatTree
+import Lemmas.QuadTreeFuelRatIndep
 /-! # C07 — QuadTree queries return exactly what a linear scan of the stored nodes would
 
 Property theorems only.  `QT.Tree` / `QT.Node` are the executable model of `collection/quadtree` (`Model/QuadTree.lean`)
-that the driver `drv_c07` runs against the Go code at `Geom.Rect Int` and `Geom.Rect Rat`.  The specification is a
+that the driver `drv_c07` runs against the Go code at `Geom.Rect Int`, `Geom.Rect Rat`, `Geom.Rect Int64` (Go `int`) and
+`Geom.Rect Float` (Go `float64`).  The specification is a
 multiset of ids (`QT.specRun`: `Insert` of a non-empty node adds its id, `Remove` erases one occurrence, `Clear`
 empties, `Reorganize`/threshold changes do nothing) together with the function `bounds` from ids to rectangles — the
 package's contract that `Bounds()` stays the same while a node is stored (`QT.OpOK`).  All theorems hold for every
-fuel, every threshold and every coordinate type whose rectangles satisfy `QT.RectLaws` (proved for `geom`'s
-rectangles over any linearly ordered commutative ring in `Lemmas/QuadTreeGeom.lean` from C18's theorems — the
-geometry of the quadrants is never used). -/
+fuel and every threshold; `abs_run`, `size_run`, `abs_run_hist` and `find_spec` for EVERY instance of the rectangle
+operations (no law is needed: also the machine instances at `Int64` and `Float`), the eight `Find*` theorems for every
+coordinate type whose rectangles satisfy `QT.RectLaws` (proved for `geom`'s rectangles over any linearly ordered
+commutative ring in `Lemmas/QuadTreeGeom.lean` from C18's theorems — the geometry of the quadrants is never used).
+Further sections: the history-dependent contract (`HistOK`); fuel (`W + H`, logarithmic, rational); machine integers
+(`int64_*`: the `Int64` instance is simulated by the `Int` instance inside `[-2^60, 2^60]²`); any arithmetic
+(`queries_any_arithmetic*`: linear order only, arbitrary `+`/`-` — rounding and wrap-around included). -/
 namespace C07
 open QT
 
 section Generic
 variable {R P : Type} [L : RectOps R P] [H : RectLaws R P]
 
+omit H in
 /-- "All report[s] exactly the inserted, not-yet-removed nodes with non-empty bounds": after any history the ids
     returned by `All` are, as a multiset, the specification's; every stored item has the bounds of its id and is
     non-empty -/
@@ -29,6 +41,7 @@ theorem abs_run (bounds : Nat → R) (fuel : Nat) (k : Int) (ops : List (Op R)) 
   obtain ⟨a, b⟩ := run_ok bounds fuel k ops hops
   exact ⟨b, a.keyed⟩
 
+omit H in
 /-- "Size … report[s] exactly …": `Size` is the number of stored nodes -/
 theorem size_run (bounds : Nat → R) (fuel : Nat) (k : Int) (ops : List (Op R)) (hops : ∀ op ∈ ops, OpOK bounds op) :
     (Tree.run fuel k ops).size = ((specRun ops).length : Int) := by
@@ -44,6 +57,7 @@ theorem reorganize_guard_exact (bounds : Nat → R) (fuel : Nat) (k : Int) (ops 
     ∀ it ∈ t.all, L.contains (t.all.foldl (fun r one => L.union r one.rect) L.zero) it.rect = true :=
   QT.reorganize_guard_exact bounds _ (run_ok bounds fuel k ops hops).1
 
+omit H in
 /-- the general form behind the eight `Find*` theorems: a traversal whose node test `pr` is implied by "an item
     satisfying `f` is contained in the node" returns, as a multiset of ids, the linear scan of the specification -/
 theorem find_spec (bounds : Nat → R) (fuel : Nat) (k : Int) (ops : List (Op R)) (hops : ∀ op ∈ ops, OpOK bounds op)
@@ -155,6 +169,7 @@ specification `QT.specRunI` is the multiset of stored ITEMS (id with the bounds 
 is the special case `hist_of_opOK`.  The harness does this to its objects (`ins same-object-new-bounds` in the
 evidence). -/
 
+omit H in
 /-- "Size and All report exactly the inserted, not-yet-removed nodes with non-empty bounds" under the history-dependent
     contract: the stored items are the specification's multiset, `Size` is their number, none is empty -/
 theorem abs_run_hist (fuel : Nat) (k : Int) (ops : List (Op R)) (hops : HistOK ([] : List (Item R)) ops) :
@@ -194,6 +209,7 @@ theorem hist_of_opOK (bounds : Nat → R) (ops : List (Op R)) (hops : ∀ op ∈
     HistOK ([] : List (Item R)) ops :=
   histOK_of_opOK bounds ops hops [] (fun x hx => by simp at hx)
 
+omit H in
 /-- "This holds for every threshold" (and every fuel), and `Reorganize` / a change of `Threshold` are invisible: two
     runs of histories that differ only in the initial threshold, the fuel, and in `Reorganize` / `setThreshold`
     operations put anywhere (i.e. that have the same specification) answer every query with the same multiset -/
@@ -319,9 +335,8 @@ theorem split_depth_rat (m : Rat) (threshold fuel : Nat) (n : Node (Rect Rat)) (
   exact ⟨a, b, fun k hk => depthQ m _ a k (by rw [b]; exact hk)⟩
 
 /-- the same over a whole `Reorganize`: the root built by the re-insertion loop from the fresh leaf over `rect`, from
-    items that are all at least `m` wide, is at most `k` levels deep if `rect` is narrower than `m · 2^k`.  (Not lifted
-    to whole histories and no fuel-independence theorem for `Rat`: that would repeat `fuel_suffices_int` with the box
-    replaced by "root width / smallest stored width".) -/
+    items that are all at least `m` wide, is at most `k` levels deep if `rect` is narrower than `m · 2^k`.  (Lifted to whole
+    histories by `fuel_suffices_rat`, fuel independence: `fuel_irrelevant_rat`.) -/
 theorem reorganize_depth_rat (m : Rat) (threshold fuel : Nat) (rect : Rect Rat) (items : List (Item (Rect Rat)))
     (hitems : ∀ x ∈ items, m ≤ x.rect.w) (k : Nat) (hk : rect.w < m * 2 ^ k) :
     (items.foldl (Tree.reorgStep rect threshold fuel) (Node.leaf rect [], [])).1.depth ≤ k := by
@@ -372,14 +387,466 @@ example : ¬ ∃ bounds : Nat → Rect Int, ∀ op ∈ ([Op.insert ⟨1, ⟨0, 0
     a subdivided tree node only when that node's rectangle contains the bounds it is given — does not find the entry, so
     `All` keeps a node the specification has removed.  Here node 1 sits in a quadrant of a subdivided 8×8 root and is
     removed under the bounds `(100,100,1,1)`, outside the root.  (Bounds that moved to ANOTHER QUADRANT of the same parent
-    would still be found: below a containing parent all four children are tried.) -/
+    would still be found: below a containing parent all four children are tried.)  The history is built from the
+    repository's own `MinQuadTreeThreshold` (`T` = the effective threshold it gives, `T + 1` unit squares make the root
+    split), so the statement follows a change of the two threshold constants. -/
 theorem contract_needed :
+    let k : Int := Facts.quadtree_MinQuadTreeThreshold
+    let T : Nat := (Tree.empty k : QT.Tree (Rect Int)).thr
     let ops : List (Op (Rect Int)) :=
-      [Op.insert ⟨0, ⟨0, 0, 8, 8⟩⟩, Op.reorganize, Op.insert ⟨1, ⟨1, 1, 1, 1⟩⟩, Op.insert ⟨2, ⟨1, 1, 1, 1⟩⟩,
-       Op.insert ⟨3, ⟨1, 1, 1, 1⟩⟩, Op.insert ⟨4, ⟨1, 1, 1, 1⟩⟩, Op.remove 1 ⟨100, 100, 1, 1⟩]
-    ¬ HistOK ([] : List (Item (Rect Int))) ops ∧
-    ids (Tree.run 10 4 ops).all = [0, 1, 2, 3, 4] ∧ ids (specRunI ops) = [4, 3, 2, 0] := by
-  refine ⟨?_, by decide, by decide⟩
-  simp [HistOK, OpOKI, specApplyI, RectOps.empty, Rect.empty]
+      [Op.insert ⟨0, ⟨0, 0, 8, 8⟩⟩, Op.reorganize] ++
+      (List.range (T + 1)).map (fun i => Op.insert ⟨i + 1, ⟨1, 1, 1, 1⟩⟩) ++ [Op.remove 1 ⟨100, 100, 1, 1⟩]
+    ¬ HistOK ([] : List (Item (Rect Int))) ops ∧ 1 ∈ ids (Tree.run 10 k ops).all ∧ 1 ∉ ids (specRunI ops) := by
+  intro k T ops
+  have h1 : 1 ∈ ids (Tree.run 10 k ops).all := by decide
+  have h2 : 1 ∉ ids (specRunI ops) := by decide
+  refine ⟨fun h => ?_, h1, h2⟩
+  have hp := ((abs_run_hist 10 k ops h).1.map (·.id)).mem_iff (a := 1)
+  exact h2 (hp.mp h1)
+
+/-! ### machine integers (Go `int`) -/
+
+/-- what a history over machine integers must satisfy for the transfer: every inserted rectangle is empty or lies in
+    the box `[-2^60, 2^60]²` (`QT.DItem`), and the bounds handed to `Remove` do not wrap (`QT.Safe`) -/
+abbrev InBox64 (op : Op (Rect Int64)) : Prop := OpDom Safe DItem op
+
+/-- **the tree over Go's `int` is the tree over ℤ**: for a history inside the box, the model run at machine integers
+    (`QT.instI64`: wrapping `+`, `-`, truncating `/2`, signed comparisons — what the driver runs for the `w` histories
+    and what the Go code computes) builds, node for node and entry for entry, the image under `Int64.toInt` of the tree
+    the unbounded-integer model builds; no `Right()`, `Bottom()`, `Union` or quadrant computation wraps, including the
+    `hw × hw` child 0 that sticks out of a wide parent -/
+theorem int64_run (fuel : Nat) (k : Int) (ops : List (Op (Rect Int64))) (hops : ∀ op ∈ ops, InBox64 op) :
+    QT.Tree.map toIntR (Tree.run fuel k ops) = Tree.run fuel k (ops.map (Op.map toIntR)) ∧
+    (Tree.run fuel k ops).size = (Tree.run fuel k (ops.map (Op.map toIntR))).size ∧
+    (Tree.run fuel k ops).fuelOK fuel = (Tree.run fuel k (ops.map (Op.map toIntR))).fuelOK fuel :=
+  ⟨(run_sim simI64 fuel k ops hops).2, (obs_sim simI64 fuel k ops hops).1.symm, (obs_sim simI64 fuel k ops hops).2.2.1.symm⟩
+
+/-- all sixteen queries of the machine-integer tree answer as the queries of the unbounded-integer tree do (query
+    rectangle without wrap, any point, any matcher) -/
+theorem int64_queries (fuel : Nat) (k : Int) (ops : List (Op (Rect Int64))) (hops : ∀ op ∈ ops, InBox64 op)
+    (m : Item (Rect Int) → Bool) (p : Point Int64) (q : Rect Int64) (hq : Safe q) :
+    let t := Tree.run fuel k ops
+    let t' := Tree.run fuel k (ops.map (Op.map toIntR))
+    let m' : Item (Rect Int64) → Bool := fun it => m (Item.map toIntR it)
+    (ids (t.findContainsPoint p) = ids (t'.findContainsPoint (toIntP p)) ∧
+      t.containsPoint p = t'.containsPoint (toIntP p)) ∧
+    (ids (t.findMatchedContainsPoint m' p) = ids (t'.findMatchedContainsPoint m (toIntP p)) ∧
+      t.matchedContainsPoint m' p = t'.matchedContainsPoint m (toIntP p)) ∧
+    (ids (t.findIntersects q) = ids (t'.findIntersects (toIntR q)) ∧ t.intersects q = t'.intersects (toIntR q)) ∧
+    (ids (t.findMatchedIntersects m' q) = ids (t'.findMatchedIntersects m (toIntR q)) ∧
+      t.matchedIntersects m' q = t'.matchedIntersects m (toIntR q)) ∧
+    (ids (t.findContainsRect q) = ids (t'.findContainsRect (toIntR q)) ∧ t.containsRect q = t'.containsRect (toIntR q)) ∧
+    (ids (t.findMatchedContainsRect m' q) = ids (t'.findMatchedContainsRect m (toIntR q)) ∧
+      t.matchedContainsRect m' q = t'.matchedContainsRect m (toIntR q)) ∧
+    (ids (t.findContainedByRect q) = ids (t'.findContainedByRect (toIntR q)) ∧
+      t.containedByRect q = t'.containedByRect (toIntR q)) ∧
+    (ids (t.findMatchedContainedByRect m' q) = ids (t'.findMatchedContainedByRect m (toIntR q)) ∧
+      t.matchedContainedByRect m' q = t'.matchedContainedByRect m (toIntR q)) := by
+  intro t t' m'
+  have key := (obs_sim simI64 fuel k ops hops).2.2.2
+  have sym : ∀ {a b : List Nat} {c d : Bool}, a = b ∧ c = d → b = a ∧ d = c := fun h => ⟨h.1.symm, h.2.symm⟩
+  have ip : ∀ r, Safe r → RectOps.inPt (toIntP p) (toIntR r) = RectOps.inPt p r := fun r h => inPt_toInt p r h
+  have ix : ∀ r, Safe r → RectOps.intersects (toIntR r) (toIntR q) = RectOps.intersects r q :=
+    fun r h => intersects_toInt r q h hq
+  have c1 : ∀ r, Safe r → RectOps.contains (toIntR r) (toIntR q) = RectOps.contains r q :=
+    fun r h => contains_toInt r q h hq
+  have c2 : ∀ r, Safe r → RectOps.contains (toIntR q) (toIntR r) = RectOps.contains q r :=
+    fun r h => contains_toInt q r hq h
+  refine ⟨sym (key _ _ _ _ (fun r h => ip r h.safe) (fun it h => ip _ h.safe)),
+    sym (key _ _ _ _ (fun r h => ip r h.safe) (fun it h => by simp only [Item.map_rect, ip _ h.safe]; rfl)),
+    sym (key _ _ _ _ (fun r h => ix r h.safe) (fun it h => ix _ h.safe)),
+    sym (key _ _ _ _ (fun r h => ix r h.safe) (fun it h => by simp only [Item.map_rect, ix _ h.safe]; rfl)),
+    sym (key _ _ _ _ (fun r h => ix r h.safe) (fun it h => c1 _ h.safe)),
+    sym (key _ _ _ _ (fun r h => ix r h.safe) (fun it h => by simp only [Item.map_rect, c1 _ h.safe]; rfl)),
+    sym (key _ _ _ _ (fun r h => ix r h.safe) (fun it h => c2 _ h.safe)),
+    sym (key _ _ _ _ (fun r h => ix r h.safe) (fun it h => by simp only [Item.map_rect, c2 _ h.safe]; rfl))⟩
+
+/-- **the property for Go's `int`, stated with the machine's own predicates**: if every object's bounds are a non-empty
+    rectangle inside the box `[-2^60, 2^60]²`, then after any history (contract `OpOK`) `Size`/`All` of the
+    machine-integer tree report the specification's multiset and the four `Find*` families return exactly the stored
+    nodes whose bounds satisfy `geom`'s predicate AS THE MACHINE EVALUATES IT (`Geom.Rect Int64`), for every point and
+    every query rectangle that does not wrap.  (Matched and boolean forms: `int64_queries` composed with the theorems
+    above.) -/
+theorem int64_linear_scan (bounds : Nat → Rect Int64) (hb : ∀ i, DItem (bounds i)) (fuel : Nat) (k : Int)
+    (ops : List (Op (Rect Int64))) (hops : ∀ op ∈ ops, OpOK bounds op) (p : Point Int64) (q : Rect Int64) (hq : Safe q) :
+    let t := Tree.run fuel k ops
+    (ids t.all).Perm (specRun ops) ∧ t.size = ((specRun ops).length : Int) ∧
+    (ids (t.findContainsPoint p)).Perm ((specRun ops).filter (fun i => p.inRect (bounds i))) ∧
+    (ids (t.findIntersects q)).Perm ((specRun ops).filter (fun i => (bounds i).intersects q)) ∧
+    (ids (t.findContainsRect q)).Perm ((specRun ops).filter (fun i => (bounds i).contains q)) ∧
+    (ids (t.findContainedByRect q)).Perm ((specRun ops).filter (fun i => q.contains (bounds i))) := by
+  intro t
+  have hdom : ∀ op ∈ ops, InBox64 op := fun op hop => opDom_of_opOK bounds hb op (hops op hop)
+  have hops' := opOK_map bounds ops hops
+  obtain ⟨a1, a2⟩ := abs_run_int _ fuel k _ hops'
+  obtain ⟨q1, q2, q3, q4⟩ := queries_int _ fuel k _ hops' (toIntP p) (toIntR q)
+  obtain ⟨_, s1, _⟩ := int64_run fuel k ops hdom
+  obtain ⟨o1, o2, _, _⟩ := obs_sim simI64 fuel k ops hdom
+  obtain ⟨⟨e1, _⟩, _, ⟨e3, _⟩, _, ⟨e5, _⟩, _, ⟨e7, _⟩, _⟩ := int64_queries fuel k ops hdom (fun _ => true) p q hq
+  rw [specRun_map simI64] at a1 a2 q1 q2 q3 q4
+  have f1 : (fun i => (toIntP p).inRect (toIntR (bounds i))) = (fun i => p.inRect (bounds i)) :=
+    funext fun i => inPt_toInt p _ (hb i).safe
+  have f2 : (fun i => (toIntR (bounds i)).intersects (toIntR q)) = (fun i => (bounds i).intersects q) :=
+    funext fun i => intersects_toInt _ _ (hb i).safe hq
+  have f3 : (fun i => (toIntR (bounds i)).contains (toIntR q)) = (fun i => (bounds i).contains q) :=
+    funext fun i => contains_toInt _ _ (hb i).safe hq
+  have f4 : (fun i => (toIntR q).contains (toIntR (bounds i))) = (fun i => q.contains (bounds i)) :=
+    funext fun i => contains_toInt _ _ hq (hb i).safe
+  rw [f1] at q1; rw [f2] at q2; rw [f3] at q3; rw [f4] at q4
+  refine ⟨?_, ?_, ?_, ?_, ?_, ?_⟩
+  · show (ids (Tree.run fuel k ops).all).Perm _; rw [← o2]; exact a1
+  · show (Tree.run fuel k ops).size = _; rw [s1]; exact a2
+  · show (ids ((Tree.run fuel k ops).findContainsPoint p)).Perm _; rw [e1]; exact q1
+  · show (ids ((Tree.run fuel k ops).findIntersects q)).Perm _; rw [e3]; exact q2
+  · show (ids ((Tree.run fuel k ops).findContainsRect q)).Perm _; rw [e5]; exact q3
+  · show (ids ((Tree.run fuel k ops).findContainedByRect q)).Perm _; rw [e7]; exact q4
+
+/-- the same for the four matched families (matcher on the node's identity, as the harness uses) -/
+theorem int64_linear_scan_matched (bounds : Nat → Rect Int64) (hb : ∀ i, DItem (bounds i)) (fuel : Nat) (k : Int)
+    (ops : List (Op (Rect Int64))) (hops : ∀ op ∈ ops, OpOK bounds op) (mi : Nat → Bool) (p : Point Int64)
+    (q : Rect Int64) (hq : Safe q) :
+    let t := Tree.run fuel k ops
+    let m : Item (Rect Int64) → Bool := fun it => mi it.id
+    (ids (t.findMatchedContainsPoint m p)).Perm ((specRun ops).filter (fun i => p.inRect (bounds i) && mi i)) ∧
+    (ids (t.findMatchedIntersects m q)).Perm ((specRun ops).filter (fun i => (bounds i).intersects q && mi i)) ∧
+    (ids (t.findMatchedContainsRect m q)).Perm ((specRun ops).filter (fun i => (bounds i).contains q && mi i)) ∧
+    (ids (t.findMatchedContainedByRect m q)).Perm ((specRun ops).filter (fun i => q.contains (bounds i) && mi i)) := by
+  intro t m
+  have hdom : ∀ op ∈ ops, InBox64 op := fun op hop => opDom_of_opOK bounds hb op (hops op hop)
+  have hops' := opOK_map bounds ops hops
+  have q1 := findMatchedContainsPoint_eq_filter _ fuel k _ hops' (fun it => mi it.id) (toIntP p)
+  have q2 := findMatchedIntersects_eq_filter _ fuel k _ hops' (fun it => mi it.id) (toIntR q)
+  have q3 := findMatchedContainsRect_eq_filter _ fuel k _ hops' (fun it => mi it.id) (toIntR q)
+  have q4 := findMatchedContainedByRect_eq_filter _ fuel k _ hops' (fun it => mi it.id) (toIntR q)
+  obtain ⟨_, ⟨e2, _⟩, _, ⟨e4, _⟩, _, ⟨e6, _⟩, _, ⟨e8, _⟩⟩ := int64_queries fuel k ops hdom (fun it => mi it.id) p q hq
+  rw [specRun_map simI64] at q1 q2 q3 q4
+  have f1 : (fun i => RectOps.inPt (toIntP p) (toIntR (bounds i)) && mi i) = (fun i => p.inRect (bounds i) && mi i) :=
+    funext fun i => by rw [show RectOps.inPt (toIntP p) (toIntR (bounds i)) = _ from inPt_toInt p _ (hb i).safe]
+  have f2 : (fun i => RectOps.intersects (toIntR (bounds i)) (toIntR q) && mi i) =
+      (fun i => (bounds i).intersects q && mi i) :=
+    funext fun i => by
+      rw [show RectOps.intersects (toIntR (bounds i)) (toIntR q) = _ from intersects_toInt _ _ (hb i).safe hq]
+  have f3 : (fun i => RectOps.contains (toIntR (bounds i)) (toIntR q) && mi i) = (fun i => (bounds i).contains q && mi i) :=
+    funext fun i => by rw [show RectOps.contains (toIntR (bounds i)) (toIntR q) = _ from contains_toInt _ _ (hb i).safe hq]
+  have f4 : (fun i => RectOps.contains (toIntR q) (toIntR (bounds i)) && mi i) = (fun i => q.contains (bounds i) && mi i) :=
+    funext fun i => by rw [show RectOps.contains (toIntR q) (toIntR (bounds i)) = _ from contains_toInt _ _ hq (hb i).safe]
+  rw [f1] at q1; rw [f2] at q2; rw [f3] at q3; rw [f4] at q4
+  exact ⟨e2 ▸ q1, e4 ▸ q2, e6 ▸ q3, e8 ▸ q4⟩
+
+/-- non-vacuity: a history over machine integers inside the box (a square of side 2^60 with a unit square in it) -/
+example : ∀ op ∈ ([Op.insert ⟨0, ⟨-576460752303423488, -576460752303423488, 1152921504606846976, 1152921504606846976⟩⟩,
+    Op.insert ⟨1, ⟨3, 3, 1, 1⟩⟩, Op.remove 1 ⟨3, 3, 1, 1⟩, Op.reorganize] : List (Op (Rect Int64))), InBox64 op := by
+  intro op h
+  simp only [List.mem_cons, List.not_mem_nil, or_false] at h
+  rcases h with h | h | h | h <;> subst h
+  · exact Or.inr (by decide)
+  · exact Or.inr (by decide)
+  · show Safe _; decide
+  · trivial
+
+/-- the box is needed (CONTRAST, a known finding of the unchanged code): at the end of the `int64` range `Right()` of
+    the query wraps negative, `geom`'s `Contains` and `Intersects` become inconsistent, and the `Intersects`-pruned
+    `FindContainsRect` of the machine-integer model — like the Go code — returns nothing although the stored node
+    `Contains` the query by the machine's own predicate: node 6 = `(MaxInt64-27, 31, 10, 17)`, `Reorganize`, query
+    `(MaxInt64-24, 46, 68, 1)`, whose computed `Right()` lies left of its `X` (the hypothesis `QT.Proper` of
+    `queries_any_arithmetic` fails) -/
+theorem int64_box_needed :
+    let b : Rect Int64 := ⟨9223372036854775780, 31, 10, 17⟩
+    let q : Rect Int64 := ⟨9223372036854775783, 46, 68, 1⟩
+    let t := Tree.run 10 4 [Op.insert ⟨6, b⟩, Op.reorganize]
+    ids t.all = [6] ∧ b.contains q = true ∧ ids (t.findContainsRect q) = [] ∧ ¬ Safe q ∧ ¬ q.x < q.right := by
+  decide
+
+/-- the second known finding (CONTRAST for the other condition of `queries_any_arithmetic`): a STORED rectangle whose
+    `Right()` wraps.  Node 10 = `(MaxInt64-9, 8, 20, 2)`, `Reorganize`, query `(MaxInt64-122, 6, 46, 13)`: by the
+    machine's predicate the query `Contains` the node, yet `FindContainedByRect` of the machine-integer model — like the
+    Go code — returns nothing; the stored rectangle is not `Proper` -/
+theorem int64_stored_wrap_needed :
+    let b : Rect Int64 := ⟨9223372036854775798, 8, 20, 2⟩
+    let q : Rect Int64 := ⟨9223372036854775685, 6, 46, 13⟩
+    let t := Tree.run 10 4 [Op.insert ⟨10, b⟩, Op.reorganize]
+    ids t.all = [10] ∧ q.contains b = true ∧ ids (t.findContainedByRect q) = [] ∧ ¬ b.x < b.right ∧ q.x < q.right := by
+  decide
+
+/-! ### fuel at the scale that is run -/
+
+/-- **logarithmic depth, every history**: if every inserted non-empty integer rectangle lies within a box whose sides
+    are at most `2^j`, then after any history and each of its prefixes no node is deeper than `j + 1`, and every fuel
+    above `j + 1` passes the driver's criterion `Tree.fuelOK`.  (`fuel_suffices_int` needs fuel above `W + H` of the box,
+    which the histories that are run — squares of side 2^60 — exceed by far; here `j = 61` and the driver's fuel 200
+    suffice for every integer history inside `[-2^60, 2^60]²`.)  The measure behind it, `QT.LogFuel.meas`: the longer side
+    of every non-empty child, the `hw × hw` child 0 included, is at most half (rounded up) the longer side of its
+    parent. -/
+theorem fuel_suffices_int_log (bounds : Nat → Rect Int) (box : Rect Int) (j : Nat) (hw : box.w ≤ 2 ^ j)
+    (hh : box.h ≤ 2 ^ j) (fuel : Nat) (k : Int) (ops : List (Op (Rect Int))) (hops : ∀ op ∈ ops, OpOK bounds op)
+    (hbox : ∀ op ∈ ops, InBox box op) (hfuel : j + 1 < fuel) (n : Nat) :
+    (Tree.run fuel k (ops.take n)).fuelOK fuel = true ∧
+    ∀ r, (Tree.run fuel k (ops.take n)).root = some r → r.depth ≤ j + 1 := by
+  have hf := LogFuel.run_finv bounds box fuel k (ops.take n) (fun op h => hops op (List.mem_of_mem_take h))
+    (fun op h => hbox op (List.mem_of_mem_take h))
+  have hm := LogFuel.meas_le_of_sides box j hw hh
+  have key : ∀ r, (Tree.run fuel k (ops.take n)).root = some r → r.depth ≤ j + 1 := by
+    intro r hr
+    obtain ⟨g, ne, hb⟩ := hf.root r hr
+    exact Nat.le_trans (LogFuel.depth_le_meas r g ne) (Nat.le_trans (LogFuel.meas_mono box r.rect hb) hm)
+  refine ⟨?_, key⟩
+  unfold Tree.fuelOK
+  cases hr : (Tree.run fuel k (ops.take n)).root with
+  | none => rfl
+  | some r => simp only [decide_eq_true_eq]; exact Nat.lt_of_le_of_lt (key r hr) hfuel
+
+/-- **the fuel is not an observable**: inside such a box any two fuels above `j` build the SAME tree after every history —
+    the fuel-0 fallback of the model is never taken, the fuelled recursion computes what the unbounded recursion
+    `insert → splitIfNeeded → insert` of the Go code computes (`fuel_independent_int` says this for one node insertion
+    and fuels above `W + H`) -/
+theorem fuel_irrelevant_int (bounds : Nat → Rect Int) (box : Rect Int) (j : Nat) (hw : box.w ≤ 2 ^ j) (hh : box.h ≤ 2 ^ j)
+    (f f' : Nat) (k : Int) (ops : List (Op (Rect Int))) (hops : ∀ op ∈ ops, OpOK bounds op)
+    (hbox : ∀ op ∈ ops, InBox box op) (h1 : j + 1 ≤ f) (h2 : j + 1 ≤ f') :
+    Tree.run f k ops = Tree.run f' k ops := by
+  have hm := LogFuel.meas_le_of_sides box j hw hh
+  exact LogFuel.run_indep bounds box f f' k ops hops hbox (by omega) (by omega)
+
+/-- the same for Go's `int`: for a history whose objects all have non-empty bounds inside `[-2^60, 2^60]²` the tree of the
+    machine-integer model is at most 62 levels deep after every prefix, so the driver's fuel (200) is never exhausted
+    on the `w` histories inside the box — by `int64_run` the machine tree has the shape of the unbounded one -/
+theorem int64_fuel_suffices (bounds : Nat → Rect Int64) (hb : ∀ i, DItem (bounds i)) (fuel : Nat) (k : Int)
+    (ops : List (Op (Rect Int64))) (hops : ∀ op ∈ ops, OpOK bounds op) (hfuel : 62 < fuel) (n : Nat) :
+    (Tree.run fuel k (ops.take n)).fuelOK fuel = true := by
+  have hops1 : ∀ op ∈ ops.take n, OpOK bounds op := fun op h => hops op (List.mem_of_mem_take h)
+  have hdom : ∀ op ∈ ops.take n, InBox64 op := fun op hop => opDom_of_opOK bounds hb op (hops1 op hop)
+  rw [(int64_run fuel k (ops.take n) hdom).2.2]
+  have h := fuel_suffices_int_log (fun i => toIntR (bounds i)) box60 61 box60_sides.1 box60_sides.2 fuel k
+    ((ops.take n).map (Op.map toIntR)) (opOK_map bounds _ hops1)
+    (fun op hop => by
+      obtain ⟨o, ho, rfl⟩ := List.mem_map.mp hop
+      exact inBox_map o (hdom o ho)) hfuel ((ops.take n).map (Op.map toIntR)).length
+  rw [List.take_length] at h
+  exact h.1
+
+/-! ### whatever the arithmetic: rounding floats, wrapping ints -/
+
+/-- **Size and All at the machine types, rounding and wrapping included**: `abs_run` / `size_run` need no law of the
+    rectangle operations at all, so they hold for the instances the driver runs at IEEE doubles (`QT.instF64`, core Lean's
+    opaque `Float`) and at machine integers (`QT.instI64`) for EVERY history — non-dyadic floats, absorbed widths, NaN,
+    rectangles that wrap around `MaxInt64` -/
+theorem abs_run_machine :
+    (∀ (bounds : Nat → Rect Float) (fuel : Nat) (k : Int) (ops : List (Op (Rect Float))), (∀ op ∈ ops, OpOK bounds op) →
+      (ids (Tree.run fuel k ops).all).Perm (specRun ops) ∧ (Tree.run fuel k ops).size = ((specRun ops).length : Int)) ∧
+    (∀ (bounds : Nat → Rect Int64) (fuel : Nat) (k : Int) (ops : List (Op (Rect Int64))), (∀ op ∈ ops, OpOK bounds op) →
+      (ids (Tree.run fuel k ops).all).Perm (specRun ops) ∧ (Tree.run fuel k ops).size = ((specRun ops).length : Int)) :=
+  ⟨fun bounds fuel k ops hops => ⟨(abs_run bounds fuel k ops hops).1, size_run bounds fuel k ops hops⟩,
+   fun bounds fuel k ops hops => ⟨(abs_run bounds fuel k ops hops).1, size_run bounds fuel k ops hops⟩⟩
+
+section AnyArithmetic
+variable {α : Type} [LinearOrder α] [Add α] [Sub α] [OfNat α 0]
+
+/-- **the queries for ANY arithmetic** (the "floating-point coordinates (whole or fractional)" clause under rounding, and
+    integers under wrap-around): let the coordinates be any linearly ordered type with arbitrary `+`, `-` and halving —
+    `float64` without NaN with its rounding, `int` with its wrap-around.  `geom`'s predicates only compare the computed
+    `X`, `Y`, `Right()`, `Bottom()`, and the quadtree stores a node only below rectangles that `Contains` it by that very
+    predicate, so after any history: `FindContainsPoint` and `FindIntersects` are exactly the linear scan, with no
+    condition; `FindContainsRect` is, if the QUERY — when not `Empty` — has a representable point (`QT.Proper`: `X < Right()`,
+    `Y < Bottom()` as computed); `FindContainedByRect` is, if every STORED rectangle has.  The two conditions are exactly what the known
+    findings violate (a width absorbed by rounding; `X+Width` wrapping negative). -/
+theorem queries_any_arithmetic (half : α → α) (bounds : Nat → Rect α) (fuel : Nat) (k : Int) (ops : List (Op (Rect α)))
+    (hops : ∀ op ∈ ops, OpOK bounds op) (p : Point α) (q : Rect α) :
+    letI : RectOps (Rect α) (Point α) := geomOps half
+    let t := Tree.run fuel k ops
+    (ids (t.findContainsPoint p)).Perm ((specRun ops).filter (fun i => p.inRect (bounds i))) ∧
+    (ids (t.findIntersects q)).Perm ((specRun ops).filter (fun i => (bounds i).intersects q)) ∧
+    ((q.empty = false → Proper q) → (ids (t.findContainsRect q)).Perm ((specRun ops).filter (fun i => (bounds i).contains q))) ∧
+    ((∀ i, (bounds i).empty = false → Proper (bounds i)) →
+      (ids (t.findContainedByRect q)).Perm ((specRun ops).filter (fun i => q.contains (bounds i)))) := by
+  let _ : RectOps (Rect α) (Point α) := geomOps half
+  intro t
+  obtain ⟨a, b⟩ := run_ok bounds fuel k ops hops
+  have fin : ∀ (pr : Rect α → Bool) (f : Item (Rect α) → Bool),
+      (∀ (x : Rect α), ∀ it ∈ (Tree.run fuel k ops).all, RectOps.contains x it.rect = true → f it = true → pr x = true) →
+      (ids ((Tree.run fuel k ops).find pr f)).Perm ((specRun ops).filter (fun i => f ⟨i, bounds i⟩)) := by
+    intro pr f hpr
+    have h1 := (tree_find_perm_mem bounds _ a pr f hpr).map (·.id)
+    have h2 := keyed_filter_ids bounds _ a.keyed f
+    simp only [ids] at h2 b ⊢
+    rw [h2] at h1
+    exact h1.trans (b.filter _)
+  refine ⟨fin _ _ (fun x it _ hc hf => prune_point_ord x it.rect p hc hf),
+    fin _ _ (fun x it _ hc hf => prune_intersects_ord x it.rect q hc hf),
+    fun hq => fin _ _ (fun x it _ hc hf => prune_containsRect_ord x it.rect q hq hc hf),
+    fun hb => fin _ _ (fun x it hit hc hf => prune_containedBy_ord x it.rect q ?_ hc hf)⟩
+  obtain ⟨e1, e2⟩ := a.keyed it hit
+  rw [e1]
+  exact hb it.id (by rw [← e1]; exact e2)
+
+/-- the matched families and the eight boolean queries for any arithmetic: same statement as `queries_any_arithmetic` with
+    the matcher conjoined; each boolean query is `true` exactly when the linear scan finds a node -/
+theorem queries_any_arithmetic_matched (half : α → α) (bounds : Nat → Rect α) (fuel : Nat) (k : Int)
+    (ops : List (Op (Rect α))) (hops : ∀ op ∈ ops, OpOK bounds op) (m : Item (Rect α) → Bool) (p : Point α)
+    (q : Rect α) :
+    letI : RectOps (Rect α) (Point α) := geomOps half
+    let t := Tree.run fuel k ops
+    let s := specRun ops
+    ((ids (t.findMatchedContainsPoint m p)).Perm (s.filter (fun i => p.inRect (bounds i) && m ⟨i, bounds i⟩)) ∧
+      (t.matchedContainsPoint m p = (s.filter (fun i => p.inRect (bounds i) && m ⟨i, bounds i⟩)).any (fun _ => true)) ∧
+      (t.containsPoint p = (s.filter (fun i => p.inRect (bounds i))).any (fun _ => true))) ∧
+    ((ids (t.findMatchedIntersects m q)).Perm (s.filter (fun i => (bounds i).intersects q && m ⟨i, bounds i⟩)) ∧
+      (t.matchedIntersects m q = (s.filter (fun i => (bounds i).intersects q && m ⟨i, bounds i⟩)).any (fun _ => true)) ∧
+      (t.intersects q = (s.filter (fun i => (bounds i).intersects q)).any (fun _ => true))) ∧
+    ((q.empty = false → Proper q) →
+      (ids (t.findMatchedContainsRect m q)).Perm (s.filter (fun i => (bounds i).contains q && m ⟨i, bounds i⟩)) ∧
+      (t.matchedContainsRect m q = (s.filter (fun i => (bounds i).contains q && m ⟨i, bounds i⟩)).any (fun _ => true)) ∧
+      (t.containsRect q = (s.filter (fun i => (bounds i).contains q)).any (fun _ => true))) ∧
+    ((∀ i, (bounds i).empty = false → Proper (bounds i)) →
+      (ids (t.findMatchedContainedByRect m q)).Perm (s.filter (fun i => q.contains (bounds i) && m ⟨i, bounds i⟩)) ∧
+      (t.matchedContainedByRect m q = (s.filter (fun i => q.contains (bounds i) && m ⟨i, bounds i⟩)).any (fun _ => true)) ∧
+      (t.containedByRect q = (s.filter (fun i => q.contains (bounds i))).any (fun _ => true))) := by
+  let _ : RectOps (Rect α) (Point α) := geomOps half
+  intro t s
+  obtain ⟨a, b⟩ := run_ok bounds fuel k ops hops
+  have and1 : ∀ {x y : Bool}, (x && y) = true → x = true := fun h => by
+    simp only [Bool.and_eq_true] at h; exact h.1
+  -- a traversal whose pruning is justified on stored items: the ids found, and the boolean form
+  have fin : ∀ (pr : Rect α → Bool) (f : Item (Rect α) → Bool),
+      (∀ (x : Rect α), ∀ it ∈ (Tree.run fuel k ops).all, RectOps.contains x it.rect = true → f it = true → pr x = true) →
+      (ids ((Tree.run fuel k ops).find pr f)).Perm ((specRun ops).filter (fun i => f ⟨i, bounds i⟩)) ∧
+      (Tree.run fuel k ops).any pr f = ((specRun ops).filter (fun i => f ⟨i, bounds i⟩)).any (fun _ => true) := by
+    intro pr f hpr
+    have h1 := (tree_find_perm_mem bounds _ a pr f hpr).map (·.id)
+    have h2 := keyed_filter_ids bounds _ a.keyed f
+    simp only [ids] at h2 b ⊢
+    rw [h2] at h1
+    have hp := h1.trans (b.filter _)
+    refine ⟨hp, ?_⟩
+    rw [tree_any_eq]
+    have e1 : ((Tree.run fuel k ops).find pr f).isEmpty = (List.map (·.id) ((Tree.run fuel k ops).find pr f)).isEmpty := by
+      cases (Tree.run fuel k ops).find pr f <;> rfl
+    have e2 : ∀ l : List Nat, l.any (fun _ => true) = !l.isEmpty := by intro l; cases l <;> rfl
+    rw [e1, e2]
+    have := hp.length_eq
+    cases h3 : List.map (·.id) ((Tree.run fuel k ops).find pr f) <;>
+      cases h4 : List.filter (fun i => f ⟨i, bounds i⟩) (specRun ops) <;> simp_all
+  have P := fun (g : Item (Rect α) → Bool) =>
+    fin (RectOps.inPt p) (fun it => RectOps.inPt p it.rect && g it)
+      (fun x it _ hc hf => prune_point_ord x it.rect p hc (and1 hf))
+  have I := fun (g : Item (Rect α) → Bool) =>
+    fin (RectOps.intersects · q) (fun it => RectOps.intersects it.rect q && g it)
+      (fun x it _ hc hf => prune_intersects_ord x it.rect q hc (and1 hf))
+  have C := fun (hq : q.empty = false → Proper q) (g : Item (Rect α) → Bool) =>
+    fin (RectOps.intersects · q) (fun it => RectOps.contains it.rect q && g it)
+      (fun x it _ hc hf => prune_containsRect_ord x it.rect q hq hc (and1 hf))
+  have D := fun (hb : ∀ i, (bounds i).empty = false → Proper (bounds i)) (g : Item (Rect α) → Bool) =>
+    fin (RectOps.intersects · q) (fun it => RectOps.contains q it.rect && g it)
+      (fun x it hit hc hf => prune_containedBy_ord x it.rect q (by
+        obtain ⟨e1, e2⟩ := a.keyed it hit
+        rw [e1]; exact hb it.id (by rw [← e1]; exact e2)) hc (and1 hf))
+  refine ⟨⟨(P m).1, (P m).2, ?_⟩, ⟨(I m).1, (I m).2, ?_⟩, fun hq => ⟨(C hq m).1, (C hq m).2, ?_⟩,
+    fun hb => ⟨(D hb m).1, (D hb m).2, ?_⟩⟩
+  · have h := (P (fun _ => true)).2; simp only [Bool.and_true] at h; exact h
+  · have h := (I (fun _ => true)).2; simp only [Bool.and_true] at h; exact h
+  · have h := (C hq (fun _ => true)).2; simp only [Bool.and_true] at h; exact h
+  · have h := (D hb (fun _ => true)).2; simp only [Bool.and_true] at h; exact h
+
+/-- `queries_any_arithmetic` under the package's own contract (`HistOK`: bounds fixed only WHILE a node is stored; an
+    object may come back with other bounds), as multisets of stored items: the condition of `FindContainedByRect` is then
+    about the rectangles that are stored at the time of the query -/
+theorem queries_hist_any_arithmetic (half : α → α) (fuel : Nat) (k : Int) (ops : List (Op (Rect α))) (p : Point α)
+    (q : Rect α) :
+    letI : RectOps (Rect α) (Point α) := geomOps half
+    HistOK ([] : List (Item (Rect α))) ops →
+    let t := Tree.run fuel k ops
+    let s := specRunI ops
+    t.all.Perm s ∧ t.size = (s.length : Int) ∧
+    (t.findContainsPoint p).Perm (s.filter (fun it => p.inRect it.rect)) ∧
+    (t.findIntersects q).Perm (s.filter (fun it => it.rect.intersects q)) ∧
+    ((q.empty = false → Proper q) → (t.findContainsRect q).Perm (s.filter (fun it => it.rect.contains q))) ∧
+    ((∀ it ∈ s, Proper it.rect) → (t.findContainedByRect q).Perm (s.filter (fun it => q.contains it.rect))) := by
+  let _ : RectOps (Rect α) (Point α) := geomOps half
+  intro hops t s
+  obtain ⟨⟨bd, hb⟩, hp⟩ := run_okI fuel k ops hops
+  have fin : ∀ (pr : Rect α → Bool) (f : Item (Rect α) → Bool),
+      (∀ (x : Rect α), ∀ it ∈ (Tree.run fuel k ops).all, RectOps.contains x it.rect = true → f it = true → pr x = true) →
+      ((Tree.run fuel k ops).find pr f).Perm ((specRunI ops).filter f) :=
+    fun pr f hpr => (tree_find_perm_mem bd _ hb pr f hpr).trans (hp.filter f)
+  exact ⟨hp, size_okI fuel k ops hops,
+    fin _ _ (fun x it _ hc hf => prune_point_ord x it.rect p hc hf),
+    fin _ _ (fun x it _ hc hf => prune_intersects_ord x it.rect q hc hf),
+    fun hq => fin _ _ (fun x it _ hc hf => prune_containsRect_ord x it.rect q hq hc hf),
+    fun hs => fin _ _ (fun x it hit hc hf => prune_containedBy_ord x it.rect q (hs it (hp.subset hit)) hc hf)⟩
+
+end AnyArithmetic
+/-- `queries_any_arithmetic` at the machine-integer instance the driver runs (`QT.instI64`), for EVERY history — also
+    outside the box of `int64_run`, up to and across the ends of the `int64` range: point and intersection queries are
+    the linear scan with the machine's predicates unconditionally, the two containment queries as long as the query
+    (resp. every stored rectangle) does not wrap (`X < Right()`, `Y < Bottom()` as computed) -/
+theorem queries_int64_everywhere (bounds : Nat → Rect Int64) (fuel : Nat) (k : Int) (ops : List (Op (Rect Int64)))
+    (hops : ∀ op ∈ ops, OpOK bounds op) (p : Point Int64) (q : Rect Int64) :
+    let t := Tree.run fuel k ops
+    (ids (t.findContainsPoint p)).Perm ((specRun ops).filter (fun i => p.inRect (bounds i))) ∧
+    (ids (t.findIntersects q)).Perm ((specRun ops).filter (fun i => (bounds i).intersects q)) ∧
+    ((q.empty = false → q.x < q.right ∧ q.y < q.bottom) →
+      (ids (t.findContainsRect q)).Perm ((specRun ops).filter (fun i => (bounds i).contains q))) ∧
+    ((∀ i, (bounds i).empty = false → (bounds i).x < (bounds i).right ∧ (bounds i).y < (bounds i).bottom) →
+      (ids (t.findContainedByRect q)).Perm ((specRun ops).filter (fun i => q.contains (bounds i)))) :=
+  @queries_any_arithmetic Int64 linearOrderInt64 _ _ _ halfI64 bounds fuel k ops hops p q
+
+/-- **fuel suffices for exact rational coordinates, every history**: if every inserted non-empty rectangle lies within a
+    box and is at least `m` wide, and the box is narrower than `m · 2^j`, then after any history and each of its prefixes
+    no node is deeper than `j` and every fuel above `j` passes the driver's criterion `Tree.fuelOK` (`split_depth_rat`
+    lifted from one insertion to histories with `Remove`, `Reorganize`, `Clear` and threshold changes; the driver's
+    fuel 200 covers every width ratio below 2^199 — the `f` histories stay below 2^24) -/
+theorem fuel_suffices_rat (bounds : Nat → Rect Rat) (m : Rat) (box : Rect Rat) (j : Nat) (hw : box.w < m * 2 ^ j)
+    (fuel : Nat) (k : Int) (ops : List (Op (Rect Rat))) (hops : ∀ op ∈ ops, OpOK bounds op)
+    (hbox : ∀ op ∈ ops, InBoxQ m box op) (hfuel : j < fuel) (n : Nat) :
+    (Tree.run fuel k (ops.take n)).fuelOK fuel = true ∧
+    ∀ r, (Tree.run fuel k (ops.take n)).root = some r → r.depth ≤ j := by
+  have hf := run_finvQ bounds m box fuel k (ops.take n) (fun op h => hops op (List.mem_of_mem_take h))
+    (fun op h => hbox op (List.mem_of_mem_take h))
+  have key : ∀ r, (Tree.run fuel k (ops.take n)).root = some r → r.depth ≤ j := by
+    intro r hr
+    obtain ⟨g, hb⟩ := hf.root r hr
+    exact depthQ m r g j (lt_of_le_of_lt (contains_width box r.rect hb) hw)
+  refine ⟨?_, key⟩
+  unfold Tree.fuelOK
+  cases hr : (Tree.run fuel k (ops.take n)).root with
+  | none => rfl
+  | some r => simp only [decide_eq_true_eq]; exact Nat.lt_of_le_of_lt (key r hr) hfuel
+
+/-- **the fuel is not an observable for exact rational coordinates either**: under the hypotheses of `fuel_suffices_rat`
+    any two fuels of at least `j` build the SAME tree after every history — with `fuel_irrelevant_int` this makes the
+    fuelled recursion of the model equal to the unbounded recursion of the Go code at both coordinate types the theorems
+    speak about -/
+theorem fuel_irrelevant_rat (bounds : Nat → Rect Rat) (m : Rat) (box : Rect Rat) (j : Nat) (hw : box.w < m * 2 ^ j)
+    (f f' : Nat) (k : Int) (ops : List (Op (Rect Rat))) (hops : ∀ op ∈ ops, OpOK bounds op)
+    (hbox : ∀ op ∈ ops, InBoxQ m box op) (h1 : j ≤ f) (h2 : j ≤ f') :
+    Tree.run f k ops = Tree.run f' k ops :=
+  run_indepQ bounds m box f f' j k ops hops hbox hw h1 h2
+
+/-- **Go's `int` without the box**: for EVERY history over machine integers in which no stored rectangle and no query
+    rectangle wraps (`QT.Safe`: `X+Width` and `Y+Height` stay within `int64`) — wherever in the range they lie, also when
+    the union of the stored rectangles is wider than 2^63 and the root computed by `Reorganize` wraps — the four `Find*`
+    families of the machine-integer model return exactly the stored nodes that satisfy the MATHEMATICAL predicate
+    (`geom`'s predicate evaluated in ℤ on the values of the coordinates).  This is the whole domain the `intwrap` oracle
+    judges; `int64_run` (same tree as over ℤ) needs the box, this does not. -/
+theorem int64_safe_linear_scan (bounds : Nat → Rect Int64) (hb : ∀ i, Safe (bounds i)) (fuel : Nat) (k : Int)
+    (ops : List (Op (Rect Int64))) (hops : ∀ op ∈ ops, OpOK bounds op) (p : Point Int64) (q : Rect Int64) (hq : Safe q) :
+    let t := Tree.run fuel k ops
+    (ids t.all).Perm (specRun ops) ∧ t.size = ((specRun ops).length : Int) ∧
+    (ids (t.findContainsPoint p)).Perm ((specRun ops).filter (fun i => (toIntP p).inRect (toIntR (bounds i)))) ∧
+    (ids (t.findIntersects q)).Perm ((specRun ops).filter (fun i => (toIntR (bounds i)).intersects (toIntR q))) ∧
+    (ids (t.findContainsRect q)).Perm ((specRun ops).filter (fun i => (toIntR (bounds i)).contains (toIntR q))) ∧
+    (ids (t.findContainedByRect q)).Perm ((specRun ops).filter (fun i => (toIntR q).contains (toIntR (bounds i)))) := by
+  intro t
+  obtain ⟨q1, q2, q3, q4⟩ := queries_int64_everywhere bounds fuel k ops hops p q
+  have q3 := q3 (proper_of_safe q hq)
+  have q4 := q4 (fun i => proper_of_safe (bounds i) (hb i))
+  have f1 : (fun i => (toIntP p).inRect (toIntR (bounds i))) = (fun i => p.inRect (bounds i)) :=
+    funext fun i => inPt_toInt p _ (hb i)
+  have f2 : (fun i => (toIntR (bounds i)).intersects (toIntR q)) = (fun i => (bounds i).intersects q) :=
+    funext fun i => intersects_toInt _ _ (hb i) hq
+  have f3 : (fun i => (toIntR (bounds i)).contains (toIntR q)) = (fun i => (bounds i).contains q) :=
+    funext fun i => contains_toInt _ _ (hb i) hq
+  have f4 : (fun i => (toIntR q).contains (toIntR (bounds i))) = (fun i => q.contains (bounds i)) :=
+    funext fun i => contains_toInt _ _ hq (hb i)
+  rw [f1, f2, f3, f4]
+  exact ⟨(abs_run bounds fuel k ops hops).1, size_run bounds fuel k ops hops, q1, q2, q3, q4⟩
 
 end C07
